@@ -1,28 +1,41 @@
 #!/bin/bash
 # Must-fail corpus: every seeded change of /verif/seeded/<name>/ (patch.diff + meta) is applied to a scratch worktree
 # of the repository (outside /repo and /verif, removed afterwards) and the check of its property must report a
-# violation (exit 1); on the unchanged scratch copy the same check must exit 0.
-# usage: selftest.sh [name...]      (default: all)
+# violation (exit 1). Evidence and replay files of these runs go to the scratch directory, not to /verif.
+# usage: selftest.sh [-j N] [name...]      (default: all, 3 at a time; changes of the same property run one after another)
 set -u
 VERIF="$(cd "$(dirname "$0")/.." && pwd)"
-SCR=$(mktemp -d /tmp/selftest-XXXXXX)
-git -C /repo worktree add --detach "$SCR/wt" HEAD >/dev/null 2>&1 || { echo "cannot create worktree"; exit 2; }
-trap 'git -C /repo worktree remove --force "$SCR/wt" >/dev/null 2>&1; rm -rf "$SCR"' EXIT
+J=3
+if [ "${1:-}" = "-j" ]; then J=$2; shift 2; fi
 names=("$@")
 [ ${#names[@]} -eq 0 ] && names=($(ls "$VERIF/seeded"))
-fail=0
+SCR=$(mktemp -d /tmp/selftest-XXXXXX)
+trap 'for w in "$SCR"/wt-*; do [ -d "$w" ] && git -C /repo worktree remove --force "$w" >/dev/null 2>&1; done; rm -rf "$SCR"' EXIT
+one_group() { # $1 = property, rest = names
+  prop=$1; shift
+  wt="$SCR/wt-$prop"
+  git -C /repo worktree add --detach "$wt" HEAD >/dev/null 2>&1 || { echo "cannot create worktree for $prop"; return 2; }
+  for n in "$@"; do
+    d="$VERIF/seeded/$n"
+    (cd "$wt" && git checkout -q -- . && git clean -fdq)
+    if ! (cd "$wt" && git apply "$d/patch.diff" 2>/dev/null); then echo "$n: PATCH DOES NOT APPLY"; continue; fi
+    out=$(VERIF_EVIDENCE_DIR="$SCR/ev-$prop" VERIF_REPLAY_DIR="$SCR/rp-$prop" "$VERIF/bin/check" "$prop" --repo "$wt" 2>&1); rc=$?
+    nv=$(echo "$out" | grep -c '^VIOLATION')
+    if [ $rc -eq 1 ] && [ $nv -gt 0 ]; then
+      echo "$n: DETECTED by check $prop ($nv violation lines): $(echo "$out" | grep '^VIOLATION' | head -2 | sed 's/replay=[^ ]* //' | cut -c1-170 | tr '\n' '|')"
+    else
+      echo "$n: MISSED by check $prop (exit $rc)"
+    fi
+  done
+  git -C /repo worktree remove --force "$wt" >/dev/null 2>&1
+}
+export -f one_group; export VERIF SCR
+declare -A groups
 for n in "${names[@]}"; do
   prop=${n%%-*}
-  d="$VERIF/seeded/$n"
-  [ -f "$d/meta.json" ] && prop=$(python3 -c "import json;print(json.load(open('$d/meta.json'))['property'])")
-  (cd "$SCR/wt" && git checkout -q -- . && git clean -fdq)
-  if ! (cd "$SCR/wt" && git apply "$d/patch.diff" 2>/dev/null); then echo "$n: PATCH DOES NOT APPLY"; fail=1; continue; fi
-  out=$("$VERIF/bin/check" "$prop" --repo "$SCR/wt" 2>&1); rc=$?
-  nv=$(echo "$out" | grep -c '^VIOLATION')
-  if [ $rc -eq 1 ] && [ $nv -gt 0 ]; then
-    echo "$n: DETECTED by check $prop ($nv violation lines): $(echo "$out" | grep '^VIOLATION' | head -2 | sed 's/replay=[^ ]* //' | cut -c1-170 | tr '\n' '|')"
-  else
-    echo "$n: MISSED by check $prop (exit $rc)"; fail=1
-  fi
+  [ -f "$VERIF/seeded/$n/meta.json" ] && prop=$(python3 -c "import json;print(json.load(open('$VERIF/seeded/$n/meta.json'))['property'])")
+  groups[$prop]="${groups[$prop]:-} $n"
 done
-exit $fail
+for prop in $(echo "${!groups[@]}" | tr ' ' '\n' | sort); do echo "$prop ${groups[$prop]}"; done > "$SCR/groups.txt"
+xargs -P "$J" -L 1 bash -c 'one_group "$@"' _ < "$SCR/groups.txt" | tee "$SCR/out.txt"
+! grep -q "MISSED\|DOES NOT APPLY\|cannot create" "$SCR/out.txt"
